@@ -57,7 +57,7 @@ pub fn props() -> Vec<PropCfg> {
             thorough_runs: 4000000,
             level: "exploration",
             rule: "one case = one seeded logger configuration (1-4 appenders with chains of scripted Accept/Neutral/Reject filters and real ThresholdFilters, per-call failing appenders, loggers over nested / look-alike names, duplicate attachments) and 1-3 threads logging records over 16 targets x 5 levels through the real Logger under one seeded schedule; after every log call the filters consulted, the deliveries and the errors handed to the error handler are compared with the per-attachment model; non-trivial = at least one appender error or one filter short-circuit (Accept/Reject) occurred; distinct = distinct event-log fingerprints",
-            assumptions: &["profile C03-file (1/5 of the cases) writes the configuration as a YAML file with custom `cap` / `script` kinds and some appenders of an unknown kind that carry valid filters, loads it with load_config_file (lossy) and expects exactly the configuration without those appenders", "filter responses and appender failures are pure functions of (stub, record), hence independent of the interleaving", "no reconfiguration in this profile (Handle::set_config installs the default stderr handler, so the configured handler is only observable before the first swap)"],
+            assumptions: &["profile C03-file (1/5 of the cases) writes the configuration as a YAML file with custom `cap` / `script` kinds and some appenders of an unknown kind that carry valid filters, loads it with load_config_file (lossy) and expects exactly the configuration without those appenders", "filter responses and appender failures are pure functions of (stub, record), hence independent of the interleaving", "half of the capturing appenders render every delivery with the real PatternEncoder (six patterns with right/left alignment, truncation, a group; m <= M) into their own writer, which fails 0-13 bytes into the record for failing deliveries; successful deliveries are compared byte for byte with a reference renderer", "a quarter of the cases use an error handler that itself logs a record for every error of a top-level record; the nested record is judged like any other", "no reconfiguration in this profile (Handle::set_config installs the default stderr handler, so the configured handler is only observable before the first swap)"],
             real: &["log4rs::Logger (ArcSwap snapshot, ConfiguredLogger tree, Appender::append filter loop, error collection and hand-off)", "ThresholdFilter", "Config builder"],
             stub: &["capturing appenders (optionally failing per call)", "scripted filters", "capturing error handler", "thread scheduler (baton)"],
         },
@@ -79,7 +79,7 @@ pub fn props() -> Vec<PropCfg> {
             thorough_runs: 1000000,
             level: "exploration",
             rule: "one case = 2-5 seeded configuration versions with version-tagged stubs, 1-3 logging threads and 1-3 reconfiguring threads (plus appenders that call set_config or log re-entrantly on selected records) on the real Logger/Handle under one seeded schedule with decision points between snapshot load, fan-out, set_max_level and store; per record: no mixture of versions and exact routing under its version; per history: register linearizability (Wing-Gong with memoisation, <= 16 reads / <= 9 writes); no panic, no deadlock; non-trivial = a swap overlapped a log call in time; distinct = distinct event-log fingerprints",
-            assumptions: &["interleavings at hook/seam granularity (log.loaded, set_config.built, set_config.stored, every stub entry)", "ArcSwap itself runs for real but only one thread at a time executes"],
+            assumptions: &["interleavings at hook/seam granularity (log.loaded, find, set_config.built, set_config.stored, every stub entry)", "reloader profile: edits live at xx.5 s, polls on whole seconds; WriteTwice steps put a second save on a whole second, where the schedule decides whether it precedes the poll, falls between the reloader's read and its store, or follows; edits are ordered against polls by the kernel's wake log, not by simulated time alone", "ArcSwap itself runs for real but only one thread at a time executes"],
             real: &["log4rs::Logger / Handle::set_config / SharedLogger::new", "arc_swap::ArcSwap", "ConfigReloader::run (reloader profile)"],
             stub: &["version-tagged capturing appenders and filters", "thread scheduler (baton)"],
         },
@@ -91,11 +91,13 @@ pub fn props() -> Vec<PropCfg> {
             level: "exploration",
             rule: "one case = one seeded scenario (pre-existing file, open modes, 1-4 threads x records sized around the 1 KiB buffer, up to 3 restart phases, encoder kind) executed under one seeded schedule; non-trivial = at least two append calls overlapped in time (a thread was switched out between invoke and return of its append while another invoked); distinct = distinct event-log fingerprints (FNV-1a over every decision, invoke/return and fault event)",
             assumptions: &[
-                "crash model: none (C04 quantifies over schedules and restarts only); profile C04-encfail (1/4 of the cases) additionally makes the harness encoder fail part-way on selected records: fragments of those unacknowledged records are tolerated anywhere, everything else stays strict",
+                "crash model: none (C04 quantifies over schedules and restarts only); profile C04-encfail (2/10 of the cases) additionally makes the harness encoder fail part-way on selected records: fragments of those unacknowledged records are tolerated anywhere, everything else stays strict",
+                "profile C04-stock (2/10): stock encoders only (JSON, {m}); the same threads also use an appender whose file is /dev/full (every write fails) and a second healthy appender on another path whose file tolerates no fragment at all",
+                "profile C04-quota (1/10): one writer, RLIMIT_FSIZE set inside selected records (short write, then EFBIG; SIGXFSZ ignored), encoder failures in between; result and file content are compared after every append with a byte-exact reference model of BufWriter<File> (1 KiB) over a size-limited file",
                 "the filesystem is the kernel's tmpfs; reads through a second handle see what write(2) has delivered",
                 "thread interleavings are explored at hook/seam granularity (before the lock, between encoder chunks, between encode and flush, at return), not at instruction granularity",
             ],
-            real: &["log4rs::append::file::FileAppender", "SimpleWriter<BufWriter<File>>", "parking_lot::Mutex", "PatternEncoder({m}) in 1/3 of runs", "kernel tmpfs"],
+            real: &["log4rs::append::file::FileAppender", "SimpleWriter<BufWriter<File>>", "parking_lot::Mutex", "PatternEncoder({m}) in 1/3 of runs", "JsonEncoder (profile C04-stock)", "kernel tmpfs, /dev/full, RLIMIT_FSIZE"],
             stub: &["ChunkEncoder (harness Encode impl with decision points between write calls) in 2/3 of runs", "thread scheduler (baton)"],
         },
         PropCfg {
@@ -105,7 +107,7 @@ pub fn props() -> Vec<PropCfg> {
             thorough_runs: 600000,
             level: "exploration",
             rule: "one case = one seeded history (pre-existing active file/archives/bystanders, trigger in {size,time,on-start-up,scripted pre/post}, roller in {delete, fixed window base/count/pattern incl. second mount}, 1-3 writer threads, clean/dirty restarts in either mode) under one seeded schedule, compared byte-for-byte with the directory model after every append; non-trivial = at least one rotation completed; distinct = distinct event-log fingerprints",
-            assumptions: &["profile C05-fault (1/40 of the histories) re-executes its history once per rotation-step site with an error or crash image there, as C08 does: acknowledged records lost after a failed rotation contradict C05 as well; the other profiles inject no filesystem fault; profile C05-encfail (6/40 of the histories) makes the harness encoder fail part-way on selected records: the bytes it had written stay in the appender's buffer and are modelled exactly (they reach the file with the next flush, rotation or clean close), nothing acknowledged may be damaged", "dirty restarts happen only while no append is in flight", "interleavings at hook/seam granularity"],
+            assumptions: &["profile C05-fault (1/40 of the histories) re-executes its history once per rotation-step site with an error or crash image there, as C08 does: acknowledged records lost after a failed rotation contradict C05 as well; the other profiles inject no filesystem fault; profile C05-encfail (6/40 of the histories) makes the harness encoder fail part-way on selected records: the bytes it had written stay in the appender's buffer and are modelled exactly (they reach the file with the next flush, rotation or clean close), nothing acknowledged may be damaged", "dirty restarts happen only while no append is in flight", "interleavings at hook/seam granularity", "in one history of six the whole archive directory is removed from outside between bursts of records or between lifetimes (Purge phases, also in C06/C16/C17 histories): the model forgets the window and its records, rotation must recreate what it needs"],
             real: R_REAL,
             stub: R_STUB,
         },
@@ -127,7 +129,7 @@ pub fn props() -> Vec<PropCfg> {
             thorough_runs: 1000000,
             level: "exploration",
             rule: "profile C07 (3/4 of the cases): direct Roll::roll calls of the real FixedWindowRoller / DeleteRoller, 1-12 successive rolls over generated trees (pre-existing archives inside, beyond and below the window, gaps, look-alike bystanders; patterns with the index in the file name, in a directory, repeated, under $ENV, on a second mount), whole tree compared with the window model after every roll; profile C05 (1/4): the same roller invariants observed inside full rolling-appender histories; non-trivial = at least one roll completed; distinct = distinct event-log fingerprints",
-            assumptions: &["profiles C07 and C05 inject no fault; profile C07-obst (2/40) puts a non-empty directory at an archive name before one roll: if that roll fails nothing that still fits the window may be lost, if it succeeds the tree must match the model; profile C07-fault (1/40 of the histories) re-executes its history once per rotation-step site with an error injected there, retries the failed roll and judges the rolls that follow (the retained window after a failed roll is whatever it left on disk)", "gzip patterns only in the thorough tier (gzip build); zstd not exercised"],
+            assumptions: &["profiles C07 and C05 inject no fault; profile C07-obst (2/40) puts a non-empty directory at an archive name before one roll: if that roll fails nothing that still fits the window may be lost, if it succeeds the tree must match the model; profile C07-fault (1/40 of the histories) re-executes its history once per rotation-step site with an error injected there (plus sampled two-fault variants), retries the failed roll until no further injected fault fires and judges the rolls that follow (the retained window after a failed roll is whatever it left on disk); in one history of eight the whole archive directory is removed from outside before one of the rolls", "gzip patterns only in the thorough tier (gzip build); zstd not exercised"],
             real: &["FixedWindowRoller::roll / rotate / move_file (incl. real EXDEV copy+delete on a second mount)", "DeleteRoller", "expand_env_vars", "kernel tmpfs + second filesystem"],
             stub: &["none for profile C07 (the roller is called directly); profile C05 as in world R"],
         },
@@ -142,6 +144,7 @@ pub fn props() -> Vec<PropCfg> {
                 "crash model is process death: user-space buffers are lost, everything handed to write(2)/rename(2) survives (log4rs never fsyncs; power loss is out of scope)",
                 "faults are injected before a step has any effect (hook) or arise from the real filesystem (obstacles, second mount); a failure in the middle of fs::copy(..).and_then(remove) is not injectable",
                 "background_rotation is excluded (its errors are only printed)",
+                "fault sequences: besides one variant per site occurrence, up to four sampled two-fault variants per history (the failed step fails again at its next occurrence; the re-open after the failed rotation fails; a later step fails; the process dies during the retry); a third of the histories drive the appender through a real log4rs::Logger with the default error handler, a third run with stdout and stderr pointing at /dev/full",
             ],
             real: R_REAL,
             stub: R_STUB,
@@ -153,7 +156,7 @@ pub fn props() -> Vec<PropCfg> {
             thorough_runs: 1000000,
             level: "exploration",
             rule: "world R with the real TimeTrigger on the simulated wall clock: 8 POSIX TZ rules (fixed offsets and DST incl. 30-minute and local-midnight transitions) x 7 units x multipliers x modulate x random-delay bound; start instants and clock moves biased to scheduled-1s/scheduled/+1s, unit boundaries, leap day, month/year/ISO-week-year ends, DST gaps and overlaps, backward jumps; every (re)schedule is checked against the calendar oracle; non-trivial = the trigger fired at least once; distinct = distinct event-log fingerprints; profile C16-huge only asserts the no-panic clause for multipliers up to i64::MAX",
-            assumptions: &["chrono's UTC->local conversion and naive calendar arithmetic are trusted (the oracle never maps local->UTC through the zone)", "the boundary equation is asserted only when the zone offset is identical over the whole span from start-of-unit to the scheduled instant", "profile C16-fault (1/80 of the histories) re-executes its history once per rotation-step site with an error or crash image there: the trigger must still be consulted on every record after a failed rotation"],
+            assumptions: &["chrono's UTC->local conversion and naive calendar arithmetic are trusted (the oracle never maps local->UTC through the zone)", "the boundary equation is asserted only when the zone offset is identical over the whole span from start-of-unit to the scheduled instant", "profile C16-encfail (4/80) makes the harness encoder fail part-way, preferably on the first record after a clock move", "profile C16-fault (1/80 of the histories) re-executes its history once per rotation-step site with an error or crash image there: the trigger must still be consulted on every record after a failed rotation"],
             real: R_REAL,
             stub: R_STUB,
         },
@@ -164,7 +167,7 @@ pub fn props() -> Vec<PropCfg> {
             thorough_runs: 600000,
             level: "exploration",
             rule: "world R restricted to the real OnStartUpTrigger: pre-existing sizes around min_size (incl. 0 and min_size 0), 1-4 threads racing for the first append, restarts re-arming the trigger; non-trivial = a rotation happened or the first appends overlapped; distinct = distinct event-log fingerprints",
-            assumptions: &["profile C17 (39/40 of the histories) injects no fault; profile C17-fault (1/40) re-executes its history once per rotation-step site with an error or a crash image there and keeps judging at-most-once after a failed start-up rotation"],
+            assumptions: &["profile C17 (35/40 of the histories) injects no fault; profile C17-encfail (4/40) makes the harness encoder fail part-way, preferably on the first record of a lifetime; profile C17-fault (1/40) re-executes its history once per rotation-step site with an error or a crash image there and keeps judging at-most-once after a failed start-up rotation"],
             real: R_REAL,
             stub: R_STUB,
         },
